@@ -429,13 +429,17 @@ func c20Mixed(r *Run, cs c20Case) {
 	stuckN, stuckWhat := 0, ""
 	stopped := false
 	undecided := false
+	idle := 0
 	for evals := 0; finished.Load() < int64(cs.Waiters); evals++ {
 		if dumpBlind.Load() {
 			r.Broken("C20: goroutine dumps cannot be parsed (own goroutine not found); hang verdicts are void")
 			undecided = true
 			break
 		}
-		if evals >= 150 { // ~30 s of predicate evaluations without a verdict either way
+		// ~30 s of predicate evaluations without progress and without a verdict either way (waiters that are still
+		// getting through their Waits - 32 writers make each one slow - are not undecided, only busy; the total
+		// is bounded all the same)
+		if idle >= 150 || evals >= 4000 {
 			undecided = true
 			break
 		}
@@ -448,6 +452,11 @@ func c20Mixed(r *Run, cs c20Case) {
 		mu.Lock()
 		n1 := len(obs)
 		mu.Unlock()
+		if n1 != n0 {
+			idle = 0
+		} else {
+			idle++
+		}
 		if n1 == n0 && finished.Load() < int64(cs.Waiters) {
 			if !stopped {
 				close(stop)
